@@ -18,5 +18,19 @@ PROPS = {
     },
 }
 
+PROPS["C14"] = {
+    "jobs": ["c14"],
+    "cli": False,
+    "trusted_base": [
+        "M3 in-process correspondence through the `verif` re-export of TagState (bounded-exhaustive name sets x lines, each case 3x with fresh hash seeds)",
+    ],
+    "modelled": [STD_TEXT, "std HashMap is modelled as an association list in arbitrary order (theorem inject_order_irrelevant)", "str::lines / replace_line_ending (model replaceLE)"],
+    "level_text": "Lean theorems over the tag-store model: create fails exactly in the documented cases; every reachable store is prefix-free; under that invariant substitution is independent of map iteration order (determinism); stored once / removed on use. The model's inject (first occurrences, sort by position, leftmost-first skip of overlaps, value line-ending-normalised, used keys deleted) is compared with TagState in process on every name set / line up to the bound, 3 repetitions each. Whole-file tag behaviour (capture of next output, unused tag at EOF) is covered by C01's machine.",
+    "design_ref": "5 C14, 4.4",
+    "level_note": "Trusted: Lean kernel + {propext, Quot.sound}; the decomposition form of inject_spec is not yet a theorem - the executable inject definition is the specification of leftmost-first substitution and is tied to the code by M3.",
+    "technique": "Lean 4 proof (invariant + permutation-invariance) + bounded-exhaustive differential correspondence",
+    "assumptions": ["lines given to inject_tags do not end in a newline (asserted by the code; established by BufRead::lines)"],
+}
+
 # properties not (yet) claimed, with the reason shown in MANIFEST.not_applicable
 PENDING = {}
